@@ -62,6 +62,8 @@ CLI_EVERY = 50
 
 # Families run by default. See NARROWING below.
 DEFAULT_FAMILIES = "default"
+# evaluated by the parser alone (second pass of the registered tiers)
+PARSER_FAMILIES = "list-start,tok-insert,tok-replace,tok-delete,tok-swap,tok-dup,delim-flip,chunk-delete,splice,kw-swap,op-swap,list-start"
 
 
 def msg_class(msg):
@@ -258,6 +260,9 @@ def run(ctx):
                 "delete/dup/swap/replace/insert, chunk delete, splice, delimiter flip, identifier/literal/operator/keyword "
                 "replacement, grammar-directed random programs and their mutants, concatenated files; every case is "
                 "evaluated by the full in-process pipeline (check_program, diagnostic rendering, emit_program if accepted); "
+                "second pass (parser phase): token-level mutants of repository files (list-element-start insertion of every punctuation "
+                "token / keyword, token insert/replace/delete/swap/dup, delimiter flip, chunk delete, splice, keyword/operator swap) "
+                "evaluated by the standalone parser only; "
                 "distinct = distinct input text hash; non-trivial = the pipeline was entered with that text (all are)")
     ctx.assumptions = ["inputs bounded by 64 KiB (repository files excepted) and nesting depth 200",
                        "the program is one file held in memory (path <scratch>/main.dora); `mod x;` items refer to files that do not exist",
@@ -321,6 +326,47 @@ def run(ctx):
         ctx.violation(o["key"], "%s [family %s, case %d]" % (o["what"], o.get("family"), o["idx"]),
                       files={"input.dora": o.get("input", "")},
                       cmd="./check C06 --replay <this dir>   (case idx=%d seed=%d families=%s count=%d)" % (o["idx"], ctx.seed, fams, count))
+
+    # ---- parser phase: token-level mutants through the parser alone --------------------------------------------------
+    # (added because of seeded change C06: a pattern parser that stops consuming `=>` breaks the progress assumption of the
+    # parameter-list loop; only "almost valid" text reaches it. The semantic phases do not saturate for such text -- see
+    # NARROWING -- but the parser does, so these families are evaluated by the parser alone.)
+    if fams == DEFAULT_FAMILIES and opts.get("parser_phase", "1") != "0":
+        pcount = int(opts.get("pcount", ctx.pick(24000, 400000)))
+        pkv = {"families": PARSER_FAMILIES, "bases": "all", "phase": "parser"}
+        if "cpu_limit_ms" in opts:
+            pkv["cpu_limit_ms"] = int(opts["cpu_limit_ms"])
+        r2 = inproc.run_sharded("vh-front", "front", ctx.seed, pcount, "c06p", timeout=ctx.pick(1800, 3600), kv=pkv)
+        pf = {}
+        for o in r2.ok:
+            ctx.observe(o.get("h"))
+            pf[o.get("fam")] = pf.get(o.get("fam"), 0) + 1
+        ctx.counters["parser_phase_cases"] = len(r2.ok)
+        ctx.counters["parser_phase_inputs_with_syntax_errors"] = sum(1 for o in r2.ok if not o.get("clean"))
+        ctx.extra["parser_phase_inputs_per_family"] = pf
+        ctx.required_counters = ctx.required_counters + ["parser_phase_cases", "parser_phase_inputs_with_syntax_errors"]
+        for o in sorted(r2.bad, key=lambda o: (len(o.get("input") or "") or 10**9, o["idx"])):
+            ctx.violation(o["key"], "%s [parser phase, family %s, case %d]" % (o["what"], o.get("family"), o["idx"]),
+                          files={"input.dora": o.get("input", "")},
+                          cmd="target-harness/release/vh-front front --seed %d --count %d --only %d --out <dir> families=%s bases=all phase=parser"
+                              % (ctx.seed, pcount, o["idx"], PARSER_FAMILIES))
+        for d in r2.deaths[:4]:
+            if d.get("idx") is None:
+                ctx.inconc("parser phase: a child ended (rc=%s) outside a case" % d["rc"])
+                continue
+            rc, out, bad = harness_alone(ctx, d["idx"], pcount, PARSER_FAMILIES, {"bases": "all", "phase": "parser"}, "p")
+            if rc is None:
+                ctx.inconc("parser phase: case %s ended its child (rc=%s); the re-run alone hit the wall-clock watchdog" % (d["idx"], d["rc"]))
+            elif bad:
+                for o in bad:
+                    ctx.violation(o["key"], "%s [parser phase, case %d, alone]" % (o["what"], d["idx"]), files={"input.dora": d.get("input", "")})
+            elif rc != 0:
+                ctx.violation("c06:parser:%s" % ("does-not-terminate" if rc == EXIT_SLOW else "died-rc%s" % rc),
+                              "the parser alone %s on case %d of the parser phase (also when run alone)"
+                              % ("exceeds the CPU bound" if rc == EXIT_SLOW else "ends the process with status %s" % rc, d["idx"]),
+                              files={"input.dora": d.get("input", "")})
+        for d in r2.deaths[4:]:
+            ctx.inconc("parser phase: case %s ended its child (rc=%s) and was not re-checked" % (d.get("idx"), d["rc"]))
 
     # ---- children that were ended ---------------------------------------------------------------------------
     slow = [d for d in r.deaths if d["rc"] == EXIT_SLOW and d["idx"] is not None]
